@@ -16,10 +16,12 @@ def exec_scripts(wd, scripts):
     open(out, "w").close()
     done = 0
     spins = []
+    BATCH = 3000     # scripts per child process (each script's runtime keeps a few descriptors until the process ends)
     while done < len(scripts):
-        p = subprocess.run([vlib.VH, "ep", sp, out, str(done)], stdout=subprocess.PIPE, stderr=subprocess.PIPE, text=True, timeout=3000)
+        p = subprocess.run([vlib.VH, "ep", sp, out, str(done), str(BATCH)], stdout=subprocess.PIPE, stderr=subprocess.PIPE, text=True, timeout=3000)
         if p.returncode == 0:
-            break
+            done += BATCH
+            continue
         if p.returncode == 3 and "VH-SPIN" in p.stderr:
             k = int(p.stderr.split("VH-SPIN script=")[1].split()[0])
             spins.append(k)
@@ -110,9 +112,23 @@ def run(pid, tier, replay, prefixes, models, gens, level_rule, keyfn=None, extra
         sc = r["sc"]
         key = (keyfn or default_key)(clause, detail, r, rows, line)
         per_script.setdefault((sc, key), (clause, line, detail))
+    # rows of one script are contiguous: index them once
+    first_row = {}
+    for i, r in enumerate(rows):
+        first_row.setdefault(r["sc"], i)
+    reported = set()
     for (sc, key), (clause, line, detail) in per_script.items():
+        # with very many failing scripts one replay per failing key is kept; the others fail the same way
+        if key in reported and len(per_script) > 200:
+            continue
+        reported.add(key)
         script = json.loads(scripts[sc])
-        trace = [x for x in rows if x["sc"] == sc]
+        a = first_row.get(sc, 0)
+        trace = []
+        for x in rows[a:a + 2000]:
+            if x["sc"] != sc:
+                break
+            trace.append(x)
         verdict.fail(key, {"clause": clause, "detail": detail, "trace_line": line, "script": script, "trace": trace[:400]})
     # vacuity is a tool error, but never hides a violation that was found
     if not replay and not per_script:
